@@ -12,6 +12,8 @@ pub enum TimerErr {
     NotMonotonic,
     TinyVariations,
     TooManyStuck,
+    /// a variant this harness does not know (the enum is non-exhaustive)
+    Other,
 }
 
 #[derive(Clone, Debug)]
